@@ -74,4 +74,28 @@ def foldI {O} (pol : Policy O) (its : List (List Pat)) (a : Acc O) : Acc O :=
 def pureRun {O} (x : Ext R) (fl : Flags) (pol : Policy O) (ps : List Pat) (a : Acc O) : Acc O :=
   ps.foldl (fun a p => foldI pol (fullItems x fl (nrm x fl p)) a) a
 
+/-! ### C07: what a pattern list means
+
+  Defined from the *complete expansion* only (expansion, then sign) — no seen-set, no routing
+  order, no limit. -/
+
+/-- inclusion patterns: the pieces that are not negative -/
+def specIncl (x : Ext R) (fl : Flags) (ps : List Pat) : List Pat :=
+  (allPieces x fl ps).filter (fun e => !isNegative fl e)
+
+/-- inline exclusion patterns: the negative pieces without their sign -/
+def specExclInline (x : Ext R) (fl : Flags) (ps : List Pat) : List Pat :=
+  ((allPieces x fl ps).filter (fun e => isNegative fl e)).map (fun e => e.drop 1)
+
+/-- the implicit match-everything inclusion of NEGATEALL: `**`, with GLOBSTAR in path mode -/
+def defaultIncl (x : Ext R) (fl : Flags) : R :=
+  x.parse { fl with globstar := fl.globstar || fl.pathname } ['*', '*']
+
+/-- "at least one inclusion, no exclusion (and not a directory under NODIR)" over compiled lists;
+    with only exclusions: nothing, or everything-minus under NEGATEALL -/
+def specOf {N : Type} (x : Ext R) (fl : Flags) (mt : R → N → Bool) (inc exc : List R) (name : N) : Prop :=
+  (∃ r ∈ (if inc.isEmpty && !exc.isEmpty && fl.negateall then [defaultIncl x fl] else inc), mt r name = true) ∧
+  (¬ ∃ r ∈ exc, mt r name = true) ∧
+  (fl.nodir = true → mt (x.noDir (isUnixStyle fl)) name = false)
+
 end WcModel.Compile
